@@ -24,6 +24,8 @@ PowOnly   == {"**"}
 PowDiv    == {"**", "/"}
 PowNums   == {"0.5", "2", "3"}
 PowInts   == {"1", "2"}
+PowMul    == {"**", "*"}
+TwoOnly   == {"2"}
 ShapeOps  == {"+", "-", "*", "/", "**"}
 PairCmps  == {"<", ">=", "=="}
 LtOnly    == {"<"}
